@@ -16,6 +16,7 @@ import rules_types as RT
 import rules_text as RX
 import rules_input as RI
 import rules_grammar as RG
+import rules_helpers as RHP
 
 ASSUME_COMMON = [
     "rustc's type checker, MIR construction and drop elaboration (facts are read from the compiler, -Zmir-opt-level=0)",
@@ -60,32 +61,34 @@ STRUCT = {
     "READER-SIB": RI.rule_reader_sib,
     "SPAN-PROV": RI.rule_span_prov,
     "SPAN-EMPTY": RI.rule_span_empty,
+    "SPAN-IMPL": RI.rule_span_impl,
+    "ALLOC-INV": RHP.rule_alloc_inv,
     "STREAM": RI.rule_stream,
     "INPUT-MISC": RI.rule_input_misc,
 }
 
 # "K" = the contract automata that serve this property (spec/contract_map.py)
 PROP_RULES = {
-    "C01": ["K", "D:POISON", "SEQ-PROV", "GRAMMAR", "ENTRY", "ENTRY-SIB", "CLONE-FIELDS", "MODE-PAIR", "NO-BACKTRACK"],
-    "C02": ["K", "D:POISON", "BUILDER-PROV", "GRAMMAR", "CLONE-FIELDS", "ENTRY-SIB", "MODE-PAIR"],
-    "C03": ["ENTRY", "K", "STREAM", "D:POISON", "MODE-PURE", "GRAMMAR", "ENTRY-SIB", "SUB-INPUT", "D:KEEP*", "HOOKS-WRITERS", "INPUT-MISC", "MODE-PAIR"],
+    "C01": ["K", "D:POISON", "SEQ-PROV", "GRAMMAR", "ENTRY", "ENTRY-SIB", "CLONE-FIELDS", "MODE-PAIR", "NO-BACKTRACK", "HELPER-PROV", "READER-SIB", "INPUT-MISC"],
+    "C02": ["K", "D:POISON", "BUILDER-PROV", "GRAMMAR", "CLONE-FIELDS", "ENTRY-SIB", "MODE-PAIR", "HELPER-PROV", "ALLOC-INV"],
+    "C03": ["ENTRY", "K", "STREAM", "D:POISON", "MODE-PURE", "GRAMMAR", "ENTRY-SIB", "SUB-INPUT", "D:KEEP*", "HOOKS-WRITERS", "INPUT-MISC", "MODE-PAIR", "HELPER-PROV"],
     "C04": ["MODE-PAIR", "MODE-PURE", "K", "D:POISON", "ENTRY-SIB"],
-    "C05": ["D:POISON", "D:KEEP", "D:LIFO", "HOOKS-SAVE-REWIND", "HOOKS-WRITERS", "MODE-PURE", "SUB-INPUT", "K", "MODE-PAIR", "NO-BACKTRACK"],
-    "C07": ["K", "SPAN-PROV", "SPAN-EMPTY", "READER-SIB", "INPUT-MISC", "GRAMMAR"],
-    "C10": ["READER-SIB", "SPAN-PROV", "SPAN-EMPTY", "STREAM", "INPUT-MISC", "CHAR-SIB", "CHAR-PROV", "GRAMMAR"],
-    "C06": ["D:ALT-LINEAR", "D:ALT-POS", "D:PFAIL", "ORDER-ARMS", "ERR-SPAN", "MERGE-ARMS", "ENTRY", "K", "READER-SIB", "SPAN-PROV", "SPAN-EMPTY", "MODE-PAIR", "ERR-PROV"],
-    "C08": ["K", "D:POISON", "D:ALT-LINEAR", "D:PFAIL", "MODE-PURE", "SUB-INPUT", "GRAMMAR", "D:KEEP*", "D:LIFO*", "HOOKS-SAVE-REWIND", "MODE-PAIR", "NO-BACKTRACK"],
+    "C05": ["D:POISON", "D:KEEP", "D:LIFO", "HOOKS-SAVE-REWIND", "HOOKS-WRITERS", "MODE-PURE", "SUB-INPUT", "K", "MODE-PAIR", "NO-BACKTRACK", "HELPER-PROV", "ENTRY", "ENTRY-SIB"],
+    "C07": ["K", "SPAN-PROV", "SPAN-EMPTY", "SPAN-IMPL", "READER-SIB", "INPUT-MISC", "GRAMMAR", "HELPER-PROV"],
+    "C10": ["READER-SIB", "SPAN-PROV", "SPAN-EMPTY", "SPAN-IMPL", "STREAM", "INPUT-MISC", "CHAR-SIB", "CHAR-PROV", "GRAMMAR", "HELPER-PROV"],
+    "C06": ["D:ALT-LINEAR", "D:ALT-POS", "D:PFAIL", "ORDER-ARMS", "ERR-SPAN", "MERGE-ARMS", "ENTRY", "K", "READER-SIB", "SPAN-PROV", "SPAN-EMPTY", "SPAN-IMPL", "MODE-PAIR", "ERR-PROV", "HELPER-PROV"],
+    "C08": ["K", "D:POISON", "D:ALT-LINEAR", "D:PFAIL", "MODE-PURE", "SUB-INPUT", "GRAMMAR", "D:KEEP*", "D:LIFO*", "HOOKS-SAVE-REWIND", "MODE-PAIR", "NO-BACKTRACK", "ENTRY", "ENTRY-SIB"],
     "C09": ["K", "D:POISON", "RECURSE", "AFFINE", "GRAMMAR", "MODE-PAIR"],
-    "C11": ["K", "D:ALT-LINEAR", "D:ALT-POS", "D:PFAIL", "MEMO-KEY", "MEMO-WRITERS", "GRAMMAR", "MODE-PAIR", "NO-BACKTRACK"],
-    "C12": ["RECURSE", "ONCE", "CLONE-FIELDS", "K", "GRAMMAR", "MODE-PAIR"],
-    "C13": ["FREEZE", "STATICS", "OWN-STATE", "CLONE-FIELDS", "MODE-PAIR", "K", "NO-BACKTRACK"],
-    "C14": ["CHAR-SIB", "CHAR-PROV", "REGEX-ANCHOR", "K", "HOOKS-TOKEN", "SEQ-PROV", "MODE-PURE", "GRAMMAR"],
-    "C15": ["K", "SUB-INPUT", "MODE-PAIR", "BUILDER-PROV", "GRAMMAR"],
-    "C16": ["K", "SUB-INPUT", "D:ALT-LINEAR", "D:PFAIL", "SPAN-PROV", "SPAN-EMPTY", "READER-SIB", "GRAMMAR", "MODE-PAIR"],
-    "C17": ["K", "D:ALT-LINEAR", "D:ALT-POS", "ERR-SPAN", "MODE-PAIR", "GRAMMAR", "ERR-PROV", "NO-BACKTRACK"],
-    "C18": ["HOOKS-WRITERS", "HOOKS-TOKEN", "HOOKS-SAVE-REWIND", "SUB-INPUT", "D:POISON", "D:KEEP", "K", "GRAMMAR", "MODE-PAIR", "NO-BACKTRACK"],
-    "C19": ["UNSAFE-INV", "MAYBEUNINIT", "CONTAINER-PROV"],
-    "C20": ["D:PFAIL", "RECURSE", "INPUT-MISC", "NONCONSUMPTION-FWD", "MODE-PAIR", "K", "REGEX-ANCHOR"],
+    "C11": ["K", "D:ALT-LINEAR", "D:ALT-POS", "D:PFAIL", "MEMO-KEY", "MEMO-WRITERS", "GRAMMAR", "MODE-PAIR", "NO-BACKTRACK", "SUB-INPUT", "ERR-PROV"],
+    "C12": ["RECURSE", "ONCE", "CLONE-FIELDS", "K", "GRAMMAR", "MODE-PAIR", "HELPER-PROV"],
+    "C13": ["FREEZE", "STATICS", "OWN-STATE", "CLONE-FIELDS", "MODE-PAIR", "K", "NO-BACKTRACK", "HELPER-PROV"],
+    "C14": ["CHAR-SIB", "CHAR-PROV", "REGEX-ANCHOR", "K", "HOOKS-TOKEN", "SEQ-PROV", "MODE-PURE", "GRAMMAR", "HELPER-PROV", "BUILDER-PROV"],
+    "C15": ["K", "SUB-INPUT", "MODE-PAIR", "BUILDER-PROV", "GRAMMAR", "HELPER-PROV"],
+    "C16": ["K", "SUB-INPUT", "D:ALT-LINEAR", "D:PFAIL", "SPAN-PROV", "SPAN-EMPTY", "SPAN-IMPL", "READER-SIB", "GRAMMAR", "MODE-PAIR", "D:POISON*", "D:KEEP*", "D:LIFO*", "MODE-PURE"],
+    "C17": ["K", "D:ALT-LINEAR", "D:ALT-POS", "ERR-SPAN", "MODE-PAIR", "GRAMMAR", "ERR-PROV", "NO-BACKTRACK", "HELPER-PROV", "ORDER-ARMS", "MERGE-ARMS"],
+    "C18": ["HOOKS-WRITERS", "HOOKS-TOKEN", "HOOKS-SAVE-REWIND", "SUB-INPUT", "D:POISON", "D:KEEP", "K", "GRAMMAR", "MODE-PAIR", "NO-BACKTRACK", "HELPER-PROV"],
+    "C19": ["UNSAFE-INV", "MAYBEUNINIT", "CONTAINER-PROV", "HELPER-PROV"],
+    "C20": ["D:PFAIL", "RECURSE", "INPUT-MISC", "NONCONSUMPTION-FWD", "MODE-PAIR", "K", "REGEX-ANCHOR", "HELPER-PROV", "READER-SIB", "ALLOC-INV"],
 }
 
 # properties whose typestate disciplines are restricted to the bodies of their own contract groups
@@ -119,6 +122,9 @@ def eval_rules(names, config="all", pid=None):
         if n == "GRAMMAR":
             res.append(RG.rule_grammar_for(pid)(facts) if pid else RG.rule_grammar(facts))
             continue
+        if n == "HELPER-PROV":
+            res.append(RHP.rule_helper_prov_for(pid)(facts))
+            continue
         if n == "RECURSE":
             res.append(RS.rule_recurse(facts, has_stacker="stacker" in facts.features))
         else:
@@ -150,7 +156,7 @@ def run_all_rules(config="all"):
     names = []
     for rs in PROP_RULES.values():
         for n in rs:
-            if n not in names and n not in ("K", "GRAMMAR"):
+            if n not in names and n not in ("K", "GRAMMAR", "HELPER-PROV"):
                 names.append(n)
     res = eval_rules(names, config)
     for pid in PROP_RULES:
@@ -159,4 +165,7 @@ def run_all_rules(config="all"):
         if "GRAMMAR" in PROP_RULES[pid]:
             res.append(RG.rule_grammar_for(pid)(factsmod.load(config)))
     res.append(RC.rule_contracts(None, config))
+    for pid in PROP_RULES:
+        if "HELPER-PROV" in PROP_RULES[pid]:
+            res.append(RHP.rule_helper_prov_for(pid)(factsmod.load(config)))
     return res
